@@ -126,13 +126,16 @@ def gen_gains(rng, n, gclass):
         return 10.0 ** rng.uniform(-2, 2) * (1 + 1e-9 * rng.standard_normal(n))
     if gclass == "sorted-desc":
         return np.sort(10.0 ** rng.uniform(-3, 3, n))[::-1].copy()
+    if gclass == "integers":        # positive gains given with an integer dtype
+        return rng.integers(1, 50, size=n).astype([np.int64, np.int32][int(rng.integers(0, 2))])
     if gclass == "svals":
         h = rng.standard_normal((n, n)) + 1j * rng.standard_normal((n, n))
         return np.linalg.svd(h, compute_uv=False) ** 2
     raise ValueError(gclass)
 
 
-GCLASSES = ["loguniform", "equal", "dominant", "near-equal", "sorted-desc", "svals"]
+GCLASSES = ["loguniform", "equal", "dominant", "near-equal", "sorted-desc", "svals",
+            "integers"]
 
 
 def case_direct(ctx, rng, idx):
